@@ -234,7 +234,7 @@ def run(ctx):
         raise InfraError("Select.tla: invariant %s fails in the model itself:\n%s" % (r.violation, r.trace_text[:1500]))
     if r.zero_actions() or r0.zero_actions():
         raise InfraError("Select.tla: actions never taken: %s" % (r.zero_actions() + r0.zero_actions()))
-    sets = r.emits
+    sets = sorted(r.emits, key=lambda c: json.dumps(c["X"]))      # TLC's print order depends on worker scheduling
     if not sets:
         raise InfraError("Select.tla GEN emitted no point sets")
     ctx.note("model: %d (point set, size, metric) states, ImplIsAdmissible holds; %d point sets emitted for replay" % (r.distinct, len(sets)))
